@@ -39,6 +39,9 @@ def check(repo: Repo, rep, tier):
     from .C15 import parse_before_write
 
     parse_before_write(repo, rep)
+    from .C04 import session_gate
+
+    session_gate(repo, rep)
 
 
 def edit_calls(repo: Repo):
@@ -513,7 +516,8 @@ def line_model(repo: Repo, rep):
                 sinks.append((st, "indexes another sequence"))
             if isinstance(st, ast.Call) and id(st) not in tainted_nodes:
                 fn = norm(st.func)
-                if fn.split(".")[-1] in ("SourcePosition", "SourceRange", "insert", "replace", "line_to_offset", "offset_to_line") and (any(tainted(a) for a in st.args) or any(tainted(k.value) for k in st.keywords)):
+                last = fn.split(".")[-1]
+                if (last in ("SourcePosition", "SourceRange", "insert", "replace", "line_to_offset", "offset_to_line") or "offset" in last.lower()) and (any(tainted(a) for a in st.args) or any(tainted(k.value) for k in st.keywords)):
                     sinks.append((st, f"is handed to {fn}()"))
         for c in srcs:
             n += 1
